@@ -143,13 +143,23 @@ def rule_expand_order(ctx: Ctx, rule: str) -> None:
                    '(BRACE, SPLIT, GLOBTILDE ∧ REALPATH)')
     repo = ctx.repo
     ex = repo.func(WP, 'expand')
-    loops = [l for l in walk_no_nested(ex.node) if isinstance(l, ast.For)]
-    ok = len(loops) == 2 and norm_src(loops[0].iter) == 'expand_braces(pattern, flags, limit)' and norm_src(loops[1].iter) == 'split(expanded, flags)' and \
-        any(loops[1] is x for x in ast.walk(loops[0])) and norm_src(loops[0].target) == 'expanded'
-    ys = [y for y in walk_no_nested(ex.node) if isinstance(y, ast.Yield)]
-    ok = ok and len(ys) == 1 and norm_src(ys[0].value) == f'expand_tilde({norm_src(loops[1].target)}, is_unix_style(flags), flags)' if loops and len(loops) == 2 else False
+    from ..symeval import SymEval, Opaque, _tag, focus
+    pars = ex.params()
+    if len(pars) != 3:
+        raise AnalysisError('expand: (pattern, flags, limit) expected')
+    ev = SymEval(repo, inline=False)
+    paths = ev.tabulate(ex, {pars[0]: Opaque('pattern'), pars[1]: Opaque('flags'), pars[2]: Opaque('limit')}, None)
+    b_ = f'{WP}:expand_braces(pattern, flags, limit)'
+    s_ = f'{WP}:split(elem({b_}), flags)'
+    want = f'{WP}:expand_tilde(elem({s_}), {WP}:is_unix_style(flags), flags)'
+    got = set()
+    for p in paths:
+        focus(p)
+        for y in p.of('yield'):
+            got.add(_tag(y[1]))
+    ok = got == {want}
     ctx.ob(rule, f'{WP}:expand/nesting', ok, repo.loc(WP, ex.node), 'for expanded in expand_braces(…): for s in split(expanded, flags): yield expand_tilde(s, is_unix_style(flags), flags)',
-           '; '.join(norm_src(l.iter) for l in loops), witness="fnmatch('a|b', '{a|b,c}', BRACE|SPLIT): braces expand before splitting")
+           'as expected' if ok else '; '.join(sorted(got))[:300], witness="fnmatch('a|b', '{a|b,c}', BRACE|SPLIT): braces expand before splitting")
     eb = repo.func(WP, 'expand_braces')
     q = fq(eb)
     it = q.calls(lambda s: s == 'bracex.iexpand')
